@@ -413,12 +413,12 @@ func C03(tier string) int {
 		runE1(rep, sc, explore.Config{Programs: explore.SingleOps(n)})
 		// several operations per transaction (index maintenance must not rely on committed-only information)
 		scq := newIdxScenario([]string{"e1", "e1x"})
-		runE1(rep, &renamed{Scenario: scq, name: "S_idx[2 ids, 2-op tx core]"}, explore.Config{Programs: pairsCore(scq.Ops())})
+		runE1(rep, &renamed{Scenario: scq, name: "S_idx[2 ids, 2-op tx core]"}, explore.Config{Programs: pairsCore(scq.Ops()), SkipRejectedPrefix: true})
 	} else {
 		runE1(rep, sc, explore.Config{Programs: explore.SingleOps(n)})
 		// two operations per transaction (accepted and rejected in either position)
 		sc2 := newIdxScenario([]string{"e1", "e1x"})
-		runE1(rep, &renamed{Scenario: sc2, name: "S_idx[2 ids, 2-op tx]"}, explore.Config{Programs: pairsSubset(sc2.Ops())})
+		runE1(rep, &renamed{Scenario: sc2, name: "S_idx[2 ids, 2-op tx]"}, explore.Config{Programs: pairsSubset(sc2.Ops()), SkipRejectedPrefix: true})
 		sc3 := newIdxScenario([]string{"e1", "e1x", "e2"})
 		runE1(rep, sc3, explore.Config{Programs: explore.SingleOps(len(sc3.Ops())), MaxTrans: 6_000_000})
 	}
